@@ -712,7 +712,215 @@ Proof.
   apply (L_tail sg0 _ H0).
 Qed.
 
-Lemma do_pass_eq o : Model.do_pass U pconfs gconfs o = bind (pass_prefix o) (fun _ => Model.loop_head U pconfs gconfs).
+Ltac fold_inv := match goal with |- tri ?I ?m (fun _ => ?I) => change (inv I m) end.
+Ltac pstep I := apply (tri_bind I _ _ (fun _ => I)); [fold_inv; solve [itac] | intros ?u; cbv beta].
+
+Lemma pass_A o : tri OS (Model.do_pass U pconfs gconfs o)
+                     (fun _ w => OS w \/ OB None sorted_groups w \/ FIN sorted_groups w).
+Proof. unfold Model.do_pass, transition_group, reap_all. do 6 pstep OS. exact L_A. Qed.
+
+Lemma pass_B sg0 o : tri (OB None sg0) (Model.do_pass U pconfs gconfs o) (fun _ w => OB None sg0 w \/ FIN sg0 w).
+Proof. unfold Model.do_pass, transition_group, reap_all. do 6 pstep (OB None sg0). apply L_B. Qed.
+
+(* ---------- boundaries *)
+Definition BI (w : world) : Prop := OS w \/ exists sg0, OB None sg0 w \/ FIN sg0 w.
+
+Lemma K_pass w o : K w -> exists w', Model.do_pass U pconfs gconfs o w = (Some tt, w') /\ K w'.
+Proof. intros HK. destruct (do_pass_ipre U pconfs gconfs o w HK Logic.I) as ([] & w' & E & K'). eauto. Qed.
+
+Lemma K_step w o : K w -> K (step w o).
 Proof.
-  unfold Model.do_pass, pass_prefix, bind. extensionality_off.
-Abort.
+  intros HK. unfold Model.step. destruct (crashed w || exited w); [exact HK|].
+  destruct (K_pass w o HK) as (w' & -> & K'). exact K'.
+Qed.
+
+Lemma tri_pass (P : world -> Prop) Q w o :
+  K w -> exited w = false -> P w -> tri P (Model.do_pass U pconfs gconfs o) Q -> Q tt (step w o).
+Proof.
+  intros HK Hx HP HT. unfold Model.step. rewrite (k_nc w HK), Hx. cbn [orb].
+  specialize (HT w HP). destruct (K_pass w o HK) as (w' & E & _). rewrite E in *. exact HT.
+Qed.
+
+Lemma step_exited w o : exited w = true -> step w o = w.
+Proof. intros H. unfold Model.step. rewrite H, orb_true_r. reflexivity. Qed.
+
+Lemma Core_rebase sg0 w : Core sg0 w -> Core (stop_groups w) w.
+Proof.
+  intros (H1 & H2 & H3 & H4 & H5 & H6). repeat split; try assumption. exists []. rewrite app_nil_r. reflexivity.
+Qed.
+
+Lemma BI_step w o : K w -> BI w -> BI (step w o).
+Proof.
+  intros HK [HA | (sg0 & [HB | HF])].
+  - pose proof HA as (_ & _ & _ & _ & _ & Hx).
+    destruct (tri_pass _ _ w o HK Hx HA (pass_A o)) as [H | H]; [left; exact H | right; exists sorted_groups; exact H].
+  - pose proof HB as (_ & Hx & _).
+    pose proof (tri_pass _ _ w o HK Hx HB (pass_B sg0 o)) as H. right. exists sg0. exact H.
+  - pose proof HF as (_ & Hx & _). rewrite (step_exited w o Hx). right. exists sg0. right. exact HF.
+Qed.
+
+Lemma OS_world0 : OS world0.
+Proof. repeat split; cbn; auto. intros [H|[]]. discriminate H. Qed.
+
+Lemma BI_fold ops : forall w, K w -> BI w -> BI (fold_left step ops w).
+Proof.
+  induction ops as [|o ops IH]; intros w HK HB; cbn [fold_left]; [exact HB|].
+  apply IH; [apply K_step; exact HK | apply BI_step; assumption].
+Qed.
+
+Theorem order_inv_run ops : BI (run ops).
+Proof. apply BI_fold; [apply K_world0 | left; exact OS_world0]. Qed.
+
+Lemma K_run ops : K (run ops).
+Proof. apply (track_run U pconfs gconfs ops). Qed.
+
+Lemma unstopped_intro g w :
+  (forall j, In j (g_procs (gc g)) -> in_stopped_states (sts w j) = true) -> unstopped gconfs g w = false.
+Proof.
+  intros H. unfold unstopped. destruct (existsb _ _) eqn:E; [|reflexivity].
+  apply existsb_exists in E. destruct E as (j & Hj & Hn). rewrite (H j Hj) in Hn. discriminate Hn.
+Qed.
+
+Lemma BI_core w : BI w -> stopping w = true -> Core (stop_groups w) w.
+Proof.
+  intros [HA | (sg0 & [HB | HF])] Hs.
+  - destruct HA as (_ & _ & E & _). congruence.
+  - destruct HB as (Hc & _). eapply Core_rebase; exact Hc.
+  - destruct HF as (Hc & _). eapply Core_rebase; exact Hc.
+Qed.
+
+(* (a) boundary form: empty before the announcement; afterwards a prefix of sorted_groups whose
+   complement (the groups already removed) is entirely stopped; and the mood is below RUNNING *)
+Theorem stop_groups_prefix ops :
+  let w := run ops in
+  (stopping w = false -> stop_groups w = []) /\
+  (stopping w = true ->
+     mood w < 1 /\
+     exists done, sorted_groups = stop_groups w ++ done /\
+                  forall g, In g done -> unstopped gconfs g w = false).
+Proof.
+  cbv zeta. pose proof (order_inv_run ops) as HB. split.
+  - intros Hs. destruct HB as [HA | (sg0 & [((_&_&E&_)&_) | ((_&_&E&_)&_)])]; [|congruence|congruence].
+    destruct HA as (_&_&_&_&E&_). exact E.
+  - intros Hs. destruct (BI_core _ HB Hs) as (_ & _ & _ & Hm & (done & Hd1 & Hd2) & _).
+    split; [exact Hm|]. exists done. split; [exact Hd1|]. intros g Hg. apply unstopped_intro. intros j Hj. eapply Hd2; eassumption.
+Qed.
+
+(* (a) step form: a pass removes groups only at the end of stop_groups, and only groups
+   whose processes are all stopped *)
+Theorem stop_groups_shrink ops o :
+  let w := run ops in
+  stopping w = true ->
+  exists popped, stop_groups w = stop_groups (step w o) ++ popped /\
+                 forall g, In g popped -> unstopped gconfs g (step w o) = false.
+Proof.
+  cbv zeta. intros Hs. set (w := run ops) in *. pose proof (order_inv_run ops) as HB. fold w in HB.
+  assert (HK : K w) by apply K_run.
+  assert (HC : Core (stop_groups w) (step w o) /\ Core (stop_groups w) w).
+  { destruct HB as [HA | (sg0 & [HB | HF])].
+    - destruct HA as (_ & _ & E & _). congruence.
+    - destruct HB as (Hc & Hx & _). apply Core_rebase in Hc. split; [|exact Hc].
+      destruct (tri_pass _ _ w o HK Hx (conj Hc (conj Hx Logic.I) : OB None (stop_groups w) w) (pass_B _ o)) as [(H&_)|(H&_)]; exact H.
+    - destruct HF as (Hc & Hx & _). rewrite (step_exited w o Hx). apply Core_rebase in Hc. split; exact Hc. }
+  destruct HC as [(_ & _ & _ & _ & (done' & Hd1' & Hd2') & (popped & Hp)) (_ & _ & _ & _ & (done & Hd1 & _) & _)].
+  exists popped. split; [exact Hp|]. intros g Hg. apply unstopped_intro. intros j Hj.
+  apply (Hd2' g j); [|exact Hj].
+  assert (E : done' = popped ++ done).
+  { apply (app_inv_head (stop_groups (step w o))). rewrite <- Hd1', Hd1, Hp, <- app_assoc. reflexivity. }
+  rewrite E. apply in_or_app. left. exact Hg.
+Qed.
+
+(* (b) the trace theorem *)
+Lemma ord_ok_spec o :
+  ord_ok o -> forall pre i f x e post, o = pre ++ EState i f STOPPING x e :: post -> In (ESup 2) post -> grp_ok post i.
+Proof.
+  intros H pre. revert o H. induction pre as [|a pre IH]; intros o H i f x e post E Hin; subst o.
+  - cbn in H. destruct H as [H _]. apply H; auto.
+  - apply (IH (pre ++ EState i f STOPPING x e :: post)) with (f := f) (x := x) (e := e); auto.
+    cbn in H. destruct a; try exact H. destruct H as [_ H]. exact H.
+Qed.
+
+Lemma BI_ord w : BI w -> ord_ok (out w).
+Proof.
+  intros [HA | (sg0 & [HB | HF])]; [destruct HA as (_&H&_) | destruct HB as ((_&H&_)&_) | destruct HF as ((_&H&_)&_)]; exact H.
+Qed.
+
+Theorem shutdown_order ops pre i f x e post :
+  out (run ops) = pre ++ EState i f STOPPING x e :: post ->
+  In (ESup 2) post ->
+  exists rest g done,
+    sorted_groups = rest ++ g :: done /\ In i (g_procs (gc g)) /\
+    forall g' j, In g' done -> In j (g_procs (gc g')) -> in_stopped_states (last_state post j) = true.
+Proof. intros E Hin. exact (ord_ok_spec _ (BI_ord _ (order_inv_run ops)) pre i f x e post E Hin). Qed.
+
+(* (c) exit condition *)
+Lemma any_unstopped_false w : any_unstopped gconfs w = false -> forall g, unstopped gconfs g w = false.
+Proof.
+  unfold any_unstopped, all_groups. intros H g. destruct (Nat.lt_ge_cases g (length gconfs)) as [Hlt|Hge].
+  - destruct (unstopped gconfs g w) eqn:E; [|reflexivity].
+    assert (existsb (fun g0 => unstopped gconfs g0 w) (seq 0 (length gconfs)) = true); [|congruence].
+    apply existsb_exists. exists g. split; [apply in_seq; lia | exact E].
+  - unfold unstopped, Model.gc. rewrite nth_overflow by exact Hge. reflexivity.
+Qed.
+
+Theorem exit_all_stopped ops :
+  let w := run ops in exited w = true -> forall g, unstopped gconfs g w = false.
+Proof.
+  cbv zeta. intros Hx. apply any_unstopped_false.
+  destruct (order_inv_run ops) as [HA | (sg0 & [HB | HF])].
+  - destruct HA as (_&_&_&_&_&E). congruence.
+  - destruct HB as (_&E&_). congruence.
+  - destruct HF as (_&_&E). exact E.
+Qed.
+
+Corollary exit_no_pid ops g i :
+  let w := run ops in
+  exited w = true -> In i (g_procs (gc g)) ->
+  in_stopped_states (sts w i) = true /\ (sts w i <> UNKNOWN -> pid (procs w i) = 0).
+Proof.
+  cbv zeta. intros Hx Hi. pose proof (unstopped_false g _ (exit_all_stopped ops Hx g) i Hi) as Hs.
+  split; [exact Hs|]. intros Hu. apply (i_J2b _ (inv_run U pconfs gconfs ops)).
+  destruct (sts (run ops) i); try discriminate Hs; try reflexivity. congruence.
+Qed.
+
+(* the exit also implies that the shutdown was announced and every group was removed or is stopped *)
+Corollary exit_after_announcement ops :
+  let w := run ops in exited w = true -> stopping w = true /\ mood w < 1.
+Proof.
+  cbv zeta. intros Hx. destruct (order_inv_run ops) as [HA | (sg0 & [HB | HF])].
+  - destruct HA as (_&_&_&_&_&E). congruence.
+  - destruct HB as (_&E&_). congruence.
+  - destruct HF as ((_&_&H3&H4&_)&_). auto.
+Qed.
+
+End WithConfig.
+
+(* ---------- the hypotheses are satisfiable on a non-trivial run: two groups (priorities 1 and 2),
+   one process each; SIGTERM arrives in pass 3; the child of the higher-priority group ignores
+   SIGTERM and is killed after stopwaitsecs; only then is the other group signalled *)
+Definition ex_pconfs : list pconf :=
+  [mkConf 1 3 10 15 999 true ARUnexpected [0] false false CmdOk 0%nat;
+   mkConf 1 3 10 15 999 true ARUnexpected [0] false false CmdOk 1%nat].
+Definition ex_gconfs : list gconf := [mkG 1 [0%nat]; mkG 2 [1%nat]].
+Definition ex_ops : list passop :=
+  [mkPass 5 [] [0;0] []; mkPass 30 [] [] []; mkPass 31 [ASignal 15] [] [1];
+   mkPass 32 [] [] []; mkPass 131 [] [] [0;0]; mkPass 132 [] [] []].
+Definition ex_interesting (e : effect) : bool :=
+  match e with EState _ _ STOPPING _ _ | EState _ _ STOPPED _ _ | ESup 2 | EKill _ _ _ | EExitNow => true | _ => false end.
+
+Example order_example_mid :
+  let w := Model.run 10 ex_pconfs ex_gconfs (firstn 5 ex_ops) in
+  sorted_groups ex_gconfs = [0%nat; 1%nat] /\
+  stopping w = true /\ stop_groups w = [0%nat] /\ exited w = false /\
+  unstopped ex_gconfs 1%nat w = false /\ sts w 0%nat = STOPPING.
+Proof. vm_compute. repeat split. Qed.
+
+Example order_example_trace :
+  let w := Model.run 10 ex_pconfs ex_gconfs ex_ops in
+  exited w = true /\ stop_groups w = [] /\
+  rev (filter ex_interesting (out w)) =
+    [ESup 2;
+     EState 1 RUNNING STOPPING 1001 true; EKill 1001 15 0; EKill 1001 9 0; EState 1 STOPPING STOPPED 1001 true;
+     EState 0 RUNNING STOPPING 1000 true; EKill 1000 15 0; EState 0 STOPPING STOPPED 1000 true;
+     EExitNow].
+Proof. vm_compute. repeat split. Qed.
